@@ -278,6 +278,17 @@ theorem free_record_lock_is_granted (c : TxProg.Cfg) (t : TxProg.Tid) (ch : TxPr
   simp only [TxProg.tstep, hpc]
   cases hw : (c.loc t).write <;> simp [hfree, hr]
 
+/-- `lockKeys` (the `mode` map, then `sort.Strings` over its keys — `TxProg.lockPlan`) yields strictly increasing
+    keys, so `Call.begin (lockPlan write read)` is a command of the model for every `write`, `read` -/
+theorem lockKeys_plan_is_sorted (write read : List Key) :
+    TxProg.sortedPlan (TxProg.lockPlan write read) = true := lockPlan_sorted write read
+
+theorem lockKeys_can_begin (c : TxProg.Cfg) (t : TxProg.Tid) (hpc : (c.loc t).pc = .init) (write read : List Key)
+    (ch : TxProg.Choice) (hc : ch.call = .begin (TxProg.lockPlan write read)) : (TxProg.step c t ch).isSome = true :=
+  begin_lockPlan_enabled c t hpc write read ch hc
+
+example : TxProg.lockPlan ["b", "a"] ["c", "a"] = [("a", true, true), ("b", true, true), ("c", false, true)] := by decide
+
 /-- hypotheses are satisfiable: a multi-key command locks "a" then "b" (sorted), both through placeholders, and
     its commit drops them: the read-held one by RUnlock + TryLock + drop, the write-held one directly -/
 example : (TxProg.run {} schedTwoKeys).2 =
